@@ -183,6 +183,12 @@ func switchSuite() []swModel {
 	add("case ending in a label", "'c' 'd' / 'a' 'b'? () / 'e' 'f'", func(m *model) *Obj {
 		return m.alt(m.seq(m.char("c"), m.char("d")), m.seq(m.char("a"), m.query(m.char("b")), m.nilNode()), m.seq(m.char("e"), m.char("f")))
 	})
+	add("case ending in a label", "'c' 'd' / 'a' (e / 'b') (() ()) / 'e' 'f'  (a parenthesised sequence of empty literals behind the label)", func(m *model) *Obj {
+		return m.alt(m.seq(m.char("c"), m.char("d")), m.seq(m.char("a"), m.alt(e(m), m.char("b")), m.seq(m.nilNode(), m.nilNode())), m.seq(m.char("e"), m.char("f")))
+	})
+	add("case ending in a label", "'c' 'd' / 'a' 'b'? (() (() ())) / 'e' 'f'  (nested twice)", func(m *model) *Obj {
+		return m.alt(m.seq(m.char("c"), m.char("d")), m.seq(m.char("a"), m.query(m.char("b")), m.seq(m.nilNode(), m.seq(m.nilNode(), m.nilNode()))), m.seq(m.char("e"), m.char("f")))
+	})
 	add("case ending in a label", "'c' e / 'a' (e / e) {act} / 'e' e", func(m *model) *Obj {
 		return m.alt(m.seq(m.char("c"), e(m)), m.seq(m.char("a"), m.alt(e(m), e(m)), m.action("__act0()")), m.seq(m.char("e"), e(m)))
 	})
